@@ -203,7 +203,17 @@ def c12_product_vs_zero(v):
 @predicate
 def c12_contradictory_strict_pair(v):
     r = v['record']
-    return r.get('clause', '').startswith('same:') and r.get('hostile') == 'contradiction' and r.get('merged_to_not_equal') is True
+    if not r.get('clause', '').startswith('same:'):
+        return False
+    # the input holds nowhere among the witnesses (it is contradictory) while the rewritten system does
+    w = r.get('witnesses') or []
+    if not w or not all(x.get('input_holds') is False for x in w):
+        return False
+    if r.get('hostile') == 'contradiction' or r.get('mirrored_pair') == 'contradictory_strict':
+        return r.get('merged_to_not_equal') is True              # A<c with A>c  ->  A != c
+    if r.get('mirrored_pair') == 'contradictory_complement':
+        return r.get('merged_to_not_equal') is False             # A>c with A<=c ->  both lines dropped
+    return False
 
 
 @predicate
@@ -220,3 +230,12 @@ def c03_powell_history_unconstrained_record(v):
     bad = r.get('bad_records') or []
     return (r.get('clause', '').startswith('c03:every solution recorded in the history') and r.get('solver') == 'powell'
             and bool(bad) and min(bad) >= 1)      # record 0 is the constrained start; the reported solution is judged by its own clause
+
+
+@predicate
+def c12_pinch_pair_equality_dropped(v):
+    r = v['record']
+    w = r.get('witnesses') or []
+    return (r.get('clause', '').startswith('same:') and r.get('mirrored_pair') == 'pinch' and bool(w)
+            and all(x.get('input_holds') is False for x in w)
+            and all(n <= (r.get('equalities_in') or 0) for n in (r.get('equalities_out') or [])))
